@@ -856,8 +856,12 @@ fn main() {
             let mut w = std::io::BufWriter::new(stdout.lock());
             let mut ctx = Ctx::new();
             nickel_lang_core::verif_hooks::set_fuel(u64::MAX);
-            for line in stdin.lock().lines() {
+            for (n, line) in stdin.lock().lines().enumerate() {
                 let line = line.unwrap();
+                // every loaded source stays in the context's caches: start afresh now and then
+                if n % 150 == 149 {
+                    ctx = Ctx::new();
+                }
                 let r = catch_unwind(AssertUnwindSafe(|| handle(&mut ctx, &line)));
                 match r {
                     Ok(s) => writeln!(w, "{s}").unwrap(),
